@@ -209,7 +209,7 @@ func hRyw(dir string) {
 				// convergence: the follower reaches the leader's content
 				want := leaderFull()
 				got := ""
-				for i := 0; i < 200; i++ {
+				for i := 0; i < 600; i++ {
 					if got = followerFull(); got == want {
 						break
 					}
